@@ -93,6 +93,10 @@ def prefix_sid(tokeniser: Any) -> PrefixSid:  # noqa: C901
     value = tokeniser()
     get_range = False
     consume_extra = False
+    if value != '[':
+        raise ValueError(
+            f"'{value}' is not a valid bgp-prefix-sid\n  Format: [ <label-index> ] or [ <label-index>, [ ( <base>,<range> ) ... ] ]"
+        )
     try:
         if value == '[':
             label_sid = tokeniser()
